@@ -38,7 +38,7 @@ class C05(Check):
     RULE += PRELUDE_RULE
     ASSUMPTIONS = ['the order in which ONE source item is delivered to several simultaneously open windows is not constrained (the suite pins slot order, the property does not)']
     ANCHORS = ['rxsci/data/roll.py', 'rxsci/operators/multiplex.py']
-    REQUIRED_TAGS = ['top', 'group', 'roll', 'roll_eq', 'split', 'w<s', 'w=s', 'w>s', 'w%s!=0', 'n=0', 'n<w', 'ring-wrapped', 'w>256', 'numpy-typed-parameters'] + PRELUDE_TAGS
+    REQUIRED_TAGS = ['top', 'group', 'roll', 'roll_eq', 'split', 'w<s', 'w=s', 'w>s', 'w%s!=0', 'n=0', 'n<w', 'ring-wrapped', 'w>256', 'numpy-typed-parameters', 'operator-object-used-in-two-pipelines'] + PRELUDE_TAGS
     REQUIRED_OBSERVED = ['child_lifetimes_checked', 'parent_lifetimes_checked', 'partial_windows_flushed']
 
     def generate(self, rng, tier, shard, nshards):
@@ -49,6 +49,8 @@ class C05(Check):
                     yield {'w': w_, 's': s_, 'parent': 'top' if n_ % 2 else 'group', 'parent_node': None if n_ % 2 else windows.PARENTS['group'](rng),
                            'items': [rng.randint(0, 40) for _ in range(n_)], 'np_params': kind}
             for n, c in enumerate(cases):
+                if n % 6 == 4 and not c.get('np_params'):
+                    c = dict(c, reuse=True)
                 if n % 5 == 3:
                     c = dict(c, np_params=('int64', 'int32', 'int8', 'uint8', 'int16')[(n // 5) % 5])
                 yield c
@@ -111,7 +113,9 @@ class C05(Check):
         if case.get('np_params'):
             x = progs.np_params(x, case['np_params'])
             out.tags.append('numpy-typed-parameters')
-        ob = windows.observe(case['parent_node'], x, items, prelude=case.get('prelude'))
+        if case.get('reuse'):
+            out.tags.append('operator-object-used-in-two-pipelines')
+        ob = windows.observe(case['parent_node'], x, items, prelude=case.get('prelude'), reuse=bool(case.get('reuse')))
         prelude_tags(case, out)
         if ob.snap.err is not None or not ob.snap.done:
             return out.fail('roll:stream-error', error=repr(ob.snap.err), done=ob.snap.done)
